@@ -880,6 +880,31 @@ def eval_matrix(case, acc=None):
             if v2 is not None:
                 key = "C12/matrix/sparse-storage/%s" % v2[0]
                 viol.append((key, case, v2[1]))
+    if v is None and nodes is not None and occupied.any():
+        # "every matrix index layout": the node level last / in the middle instead of first, and the Haigh parameters as a
+        # frame with one row per node (the same values on every node): the same cycles in the same result classes per node
+        base = res.sort_index()
+        frame = pd.DataFrame({"M": [M[0]] * len(nodes), "M2": [M[1]] * len(nodes)}, index=pd.Index(list(nodes), name="node"))
+        names = list(s.index.names)
+        for lname, order, prm in (("node-level-last", names[1:] + names[:1], pd.Series({"M": M[0], "M2": M[1]})),
+                                  ("node-level-in-the-middle", [names[1], names[0], names[2]], pd.Series({"M": M[0], "M2": M[1]})),
+                                  ("per-node-parameter-frame", names, frame),
+                                  ("per-node-parameter-frame/node-level-last", names[1:] + names[:1], frame)):
+            s3 = s.reorder_levels(order)
+            r3 = _guard("matrix/index-layout/" + lname, lambda: s3.meanstress_transform.fkm_goodman(prm, R).to_pandas(), viol, case)
+            if acc is not None:
+                acc.evaluations += 1
+            if r3 is None:
+                continue
+            bad = None
+            if set(r3.index.names) != set(base.index.names):
+                bad = {"result_levels": list(r3.index.names), "expected_levels": list(base.index.names)}
+            else:
+                r3 = r3.reorder_levels(base.index.names).sort_index()
+                if len(r3) != len(base) or not r3.index.equals(base.index) or not np.allclose(r3.to_numpy(), base.to_numpy(), rtol=1e-12, atol=0):
+                    bad = {"node_first_layout": base.to_numpy(), "this_layout": r3.to_numpy(), "same_classes": bool(len(r3) == len(base) and r3.index.equals(base.index))}
+            if bad is not None:
+                viol.append(("C12/matrix/index-layout/%s/differs-from-the-node-first-layout" % lname, case, bad))
     if v is not None:
         key = "C12/matrix/%s" % v[0] if v[0] == "cycles-not-conserved" else "C12/interface/matrix-accessor/%s" % v[0]
         viol.append((key, case, v[1]))
